@@ -292,6 +292,11 @@ theorem inv_doSend (p : Peer) (hp : Obeys p) (g : GState) (t i : Nat) (m0 m : MC
       | some x => exact ⟨x, rfl⟩
     obtain ⟨meth, hmeth⟩ := hmeth
     obtain ⟨params, hreq⟩ := hreq
+    cases hu : m.unser with
+    | true =>
+      rw [send_unser p ow mo up (g.cs m) meth params hmeth hreq hu]
+      exact keep g.conn g.wire rfl rfl
+    | false =>
     cases hidle : g.conn.idle with
     | false =>
       rw [(send_not_idle p ow mo up (g.cs m) hidle).1]
@@ -309,7 +314,7 @@ theorem inv_doSend (p : Peer) (hp : Obeys p) (g : GState) (t i : Nat) (m0 m : MC
       obtain ⟨hone, hshape⟩ := hp g.wire.log (mkRequest meth params ow mo up)
       cases hcw : g.wire.canWrite with
       | true =>
-        rw [send_ok p ow mo up (g.cs m) meth params hmeth hreq hidle hcw]
+        rw [send_ok p ow mo up (g.cs m) meth params hmeth hreq hu hidle hcw]
         cases ow with
         | true =>
           have hfs : (p g.wire.log (mkRequest meth params true mo up)).1 = [] := by
@@ -327,7 +332,7 @@ theorem inv_doSend (p : Peer) (hp : Obeys p) (g : GState) (t i : Nat) (m0 m : MC
             exact acquire _ (p g.wire.log (mkRequest meth params false mo up)).1 _
               (by simp [Wire.accept, GState.cs, hcl]) hshape rfl
       | false =>
-        rw [send_wfail p ow mo up (g.cs m) meth params hmeth hreq hidle hcw]
+        rw [send_wfail p ow mo up (g.cs m) meth params hmeth hreq hu hidle hcw]
         cases ow with
         | true =>
           simp only [if_true]
@@ -492,13 +497,13 @@ theorem doSend_busy (p : Peer) (g : GState) (t i : Nat) (m : MCall) (ow mo up : 
     let g' := g.doSend p t i m ow mo up okProg okDone rest
     g'.wire = g.wire ∧ g'.conn = g.conn ∧ g'.trace = g.trace ++ [(t, .err .connectionBusy)] ∧
     g'.progs = g.progs.set t rest ∧ g'.objs = g.objs.set i m.spent := by
-  obtain ⟨meth, params, hm, hq⟩ := hf
+  obtain ⟨meth, params, hm, hq, hu⟩ := hf
   have e : send p ow mo up (g.cs m) = (some .connectionBusy, { g.cs m with call := m.spent }) := by
     unfold send
     have h' : (!g.conn.reader || !g.conn.writer) = true := by
       simp [Conn.idle] at hidle
       cases hr : g.conn.reader <;> cases hw : g.conn.writer <;> simp_all
-    simp [GState.cs, hm, hq, h', MCall.spent]
+    simp [GState.cs, hm, hq, hu, h', MCall.spent]
   simp only [GState.doSend, e]
   simp [GState.put, GState.tagNew, GState.setProg, GState.done, GState.cs]
 
